@@ -144,7 +144,7 @@ type HarnessSpec struct {
 	// MaxViolations stops the exploration once that many violations were
 	// found (the run is then not exhaustive). 0 = 40.
 	MaxViolations int
-	LogSMT   string
+	LogSMT        string
 }
 
 type HarnessResult struct {
@@ -443,6 +443,23 @@ func (e *Engine) Run(spec HarnessSpec) *HarnessResult {
 		defer logF.Close()
 	}
 
+	doneCh := make(chan bool)
+	if os.Getenv("VERIF_PROGRESS") != "" {
+		go func() {
+			tk := time.NewTicker(10 * time.Second)
+			defer tk.Stop()
+			for {
+				select {
+				case <-doneCh:
+					return
+				case <-tk.C:
+					mu.Lock()
+					fmt.Fprintf(os.Stderr, "[%s %.0fs] paths=%d queue=%d active=%d outcomes=%v queries=%d viol=%d\n", spec.Name, time.Since(t0).Seconds(), len(hr.Paths), len(queue), active, hr.Counts, hr.Stats.Queries, len(hr.Violations))
+					mu.Unlock()
+				}
+			}
+		}()
+	}
 	var wg sync.WaitGroup
 	for w := 0; w < spec.Workers; w++ {
 		wg.Add(1)
@@ -527,6 +544,7 @@ func (e *Engine) Run(spec HarnessSpec) *HarnessResult {
 		}(w)
 	}
 	wg.Wait()
+	close(doneCh)
 	hr.WorkLeft = len(queue)
 	hr.Exhaustive = len(queue) == 0 && !stop
 	hr.Wall = time.Since(t0)
